@@ -364,7 +364,9 @@ func Enumerate[C any](t *testing.T, prop, rule string, each func(yield func(C) b
 	defer st.flush(start)
 	judge := func(c C, fatal func(string)) {
 		raw, _ := json.Marshal(c)
+		wedgeEnter(prop, rule, raw, st, start)
 		v := interp(c)
+		wedgeLeave()
 		st.record(raw, v)
 		if v.Fail != "" && !(v.Known != "" && KnownOpen(prop, v.Known)) {
 			p := writeReplay(prop, rule, raw, v)
@@ -391,7 +393,9 @@ func Enumerate[C any](t *testing.T, prop, rule string, each func(yield func(C) b
 			return true
 		}
 		raw, _ := json.Marshal(c)
+		wedgeEnter(prop, rule, raw, st, start)
 		v := interp(c)
+		wedgeLeave()
 		st.record(raw, v)
 		if v.Fail == "" {
 			return true
